@@ -1475,7 +1475,7 @@ pub fn main(tier: Tier, seed: u64) -> Report {
     if !regress.is_empty() {
         runner::run_cases(&mut rep, "regress-rtc", regress, run);
     }
-    runner::run_generated(&mut rep, "rtc", tier.pick(6000, 200_000), || strategy(tier), run);
+    runner::run_generated(&mut rep, "rtc", tier.pick(18_000, 200_000), || strategy(tier), run);
     rep
 }
 
